@@ -7,6 +7,7 @@ import Wencry.Proofs.SeqGlue
 import Wencry.Proofs.EncSpec
 import Wencry.Proofs.Roundtrip
 import Wencry.Proofs.PipeSpurious
+import Wencry.Proofs.PipeFine
 namespace Wencry.Props.C03
 open Wencry Wencry.Model.Pipe Wencry.Model.IoBuffer Wencry.Proofs.PipeCtl Wencry.Proofs.PipeProgress Wencry.Proofs.PipeData
 
@@ -123,5 +124,21 @@ theorem exported_only_when_complete_with_spurious_wakeups (f : σ → Block → 
   Proofs.PipeSpurious.export_complete_S f inp hwf ispad P T hT hP ws0 s h he
 
 end spurious
+
+/-! ### At the level of the mutex and condition-variable operations (Model/PipeFine.lean; refinement in Proofs/PipeFine.lean) -/
+section fine
+open Wencry.Model.PipeFine
+
+/-- under every schedule of the mutex-level system — threads preempted inside critical sections, unsynchronised accesses falling inside
+    another thread's critical section — the output is always the sequential output of the chunks exported so far and, when all threads
+    have returned, the complete sequential output with every block transformed exactly once by its owner -/
+theorem output_independent_of_schedule_at_mutex_level (f : σ → Block → σ × Block) (inp : Input) (hwf : inp.WF) (ispad : Bool) (P T : Nat)
+    (hT : 0 < T) (hP : FirstNonFull inp P) (ws0 : Nat → σ) (s : FSt σ) (h : FReach f inp ispad T ws0 s) :
+    (s.d.nexp ≤ nChunks inp P ∧ s.d.out = seqOut f inp ispad T ws0 s.d.nexp) ∧
+    (fAllDone T s → s.d.out = seqOut f inp ispad T ws0 (nChunks inp P) ∧
+       ∀ i, i < T → s.d.log.filter (fun e => e.1 = i) = workerLog inp T (nChunks inp P) i) :=
+  (Proofs.PipeFine.fine_safety f inp hwf ispad P T hT hP ws0 s h).2
+
+end fine
 
 end Wencry.Props.C03
